@@ -433,7 +433,7 @@ def file_b():
 
 def file_c():
     """ELF64 LE; two DWARF 4 units sharing ONE abbreviation table and one DWARF 3 line program that
-    executes DW_LNE_define_file; sibling chains mixing entries with and without DW_AT_sibling."""
+    executes DW_LNE_define_file; sibling chains mixing entries with and without DW_AT_sibling; three type units in .debug_types."""
     b = Builder(True)
     def fn(name, kids, sib, label):
         attrs = [(DW_AT_name, F_string, name)] + ([(DW_AT_sibling, F_ref4, ('sib',))] if sib else [])
@@ -450,6 +450,14 @@ def file_c():
     # same shapes => make unit 1 use unit 0's table: all of its abbreviations exist there
     u1.share_abbrev_with = 0
     info, abbrev, labels = b.build_info([u0, u1])
+    # .debug_types: three DWARF 4 type units (header of 23 bytes, one entry each) with their own abbreviation
+    # table appended to .debug_abbrev; a gap of garbage-free bytes is not allowed between units, so they tile
+    tu_abbrev_off = len(abbrev)
+    abbrev += uleb(1) + uleb(DW_TAG_structure_type) + b'\0' + uleb(DW_AT_byte_size) + uleb(F_data1) + b'\0\0' + b'\0'
+    types = bytearray()
+    for k, sig in enumerate((0x1122334455667788, 0x0102030405060708, 0xfedcba9876543210)):
+        body = (b.u(2, 4) + b.u(4, tu_abbrev_off) + b.u(1, 8) + b.u(8, sig) + b.u(4, 23) + uleb(1) + bytes([4 + k]))
+        types += b.u(4, len(body)) + body
     prog = (b.lp_set_address(0x3000) + bytes([0x13]) + Builder.lp_define_file(b'gen.h') + bytes([0x21]) +
             Builder.lp_define_file(b'gen2.h') + bytes([0x02, 0x03]) + b.lp_end_sequence)
     line = b.line_v4(3, [(b'p.c', 1)], prog, dirs=(b'/d',))
@@ -457,7 +465,8 @@ def file_c():
     dynstr = b'\0libz.so.1\0me.so\0'
     img = elf_image(True, True,
                     [(b'.debug_info', 1, info, 0), (b'.debug_abbrev', 1, abbrev, 0), (b'.debug_str', 1, bytes(b.strtab), 0),
-                     (b'.debug_line', 1, line, 0), (b'.debug_frame', 1, frame, 0), (b'.data', 1, b'\x01\x02\x03\x04', 3),
+                     (b'.debug_line', 1, line, 0), (b'.debug_frame', 1, frame, 0), (b'.debug_types', 1, bytes(types), 0),
+                     (b'.data', 1, b'\x01\x02\x03\x04', 3),
                      (b'.data', 1, b'\x05\x06', 3)],
                     [_sym(b'', 0, 0, 0, 0), _sym(b'f1', 0x3000), _sym(b'f2', 0x3010), _sym(b'f3', 0x3040)],
                     [(14, 11), (1, 1), (0, 0), (0, 0), (1, 1), (12, 0x99)], dynstr, 62)
